@@ -298,7 +298,7 @@ pub fn run_prop(prop: &Prop, tier: Tier, only_part: Option<&str>) -> i32 {
     states += po.stats.states.len();
     nontrivial += po.stats.nontrivial.len();
     evals += po.stats.evals;
-    for s in po.stats.samples.iter().take(2) {
+    for s in po.stats.samples.iter().take(4) {
       samples.push(json!({"part": po.name, "case": s}));
     }
     all_exhaustive &= po.exhaustive;
